@@ -70,7 +70,7 @@ fn sweep_cases() -> Vec<Scenario> {
     out
 }
 
-fn sampled(rng: &mut Rng) -> Scenario {
+pub(crate) fn sampled(rng: &mut Rng) -> Scenario {
     let m = gen_method(rng);
     let (mut sc, _p) = gen_admissible(rng, m, ProbClass::Smooth, Entry::High, 20_000, &mut |_, _| {});
     let d = sc.dir();
